@@ -68,3 +68,27 @@ for pid, tech in [("C01", "ghost list of accepted units vs decoded fragments"), 
                   ("C04", "relation between consecutive served playlists"), ("C05", "every listed URI fetched through the real handlers"),
                   ("C18", "window size, expired URIs, segment size limit")]:
     CHECKS[pid] = {"technique": tech, "bounds": MUX_BOUNDS, "assumptions": MUX_STUBS, "outside": MUX_OUTSIDE, "runs": mux_runs()}
+
+C06F = [G + "c06_reload.go"] + MUX
+CHECKS["C06"] = {
+    "technique": "lemma on hasPart vs the published(M,P) predicate; request threads with symbolic _HLS_msn/_HLS_part text inside a real Low-Latency run, writer as interference",
+    "bounds": {
+        "quick": {"hasPart": "0..2 gaps, 0..3 complete segments x 1..2 parts, open 0..2 parts, first MSN < 2^62, M,P full uint64",
+                  "reload": "K=3 writes, request after 2..3 writes, msn text 0..2 chars and part text 0..1 chars over digits and one unparsable character",
+                  "hint": "K=4 writes", "delta": "K=3 writes, _HLS_skip in {YES,v2}, with/without ordinary query parameters"},
+        "thorough": {"hasPart": "same", "reload": "K=4", "hint": "K=5", "delta": "K=4"},
+    },
+    "assumptions": MUX_STUBS + ["cooperative scheduling: the request thread runs until it blocks, the writer's subsequent real writes are the interference; "
+                                "liveness is checked as safety at quiescence (a request still parked although its part is published is a lost wake-up or a wrong predicate)",
+                                "one pending request (waiters do not write shared state)"],
+    "outside": ["wall-clock promptness", "more than one concurrent waiter", "MSN/part numbers above 99"],
+    "runs": [
+        {"name": "lemma.hasPart", "files": C06F, "fn": "VerifH_C06_hasPart", "reach": ["end"]},
+        {"name": "conc.reload", "files": C06F, "fn": "VerifH_C06_reload", "workers": 16, "params_quick": {"K": 3}, "params_thorough": {"K": 4},
+         "reach": ["answered", "blocked", "end"], "budget_quick": 900, "budget_thorough": 7200, "replay_timeout": 120},
+        {"name": "conc.hint", "files": C06F, "fn": "VerifH_C06_hint", "workers": 16, "params_quick": {"K": 4}, "params_thorough": {"K": 5},
+         "reach": ["hint-part-published", "end"], "budget_quick": 900, "budget_thorough": 7200},
+        {"name": "step.delta", "files": C06F, "fn": "VerifH_C06_delta", "workers": 16, "params_quick": {"K": 3}, "params_thorough": {"K": 4},
+         "reach": ["skipped-some", "end"], "budget_quick": 900, "budget_thorough": 7200},
+    ],
+}
